@@ -488,6 +488,9 @@ def gen_cases(rng, tier):
             passes=[p1, p2] if rng.random() < 0.7 else [p1])
     # real fork parallelism
     add(parallel=2, depth=2, default="fits", kind="f64")
+    # odd worker counts on a layer whose leaf count they do not divide (64 leaves, 3 and 5 workers)
+    add(parallel=3, depth=3, default="npy", kind="i32")
+    add(parallel=5, depth=3, default="npy", kind="f64", coordsys="planetary")
     add(parallel=2, depth=2, default="png", kind="rgba", clobber=False, coordsys="planetary",
         passes=[dict(acc=[[1, 0, 0], [1, 1, 1], [2, 0, 0], [2, 1, 1], [2, 3, 3], [2, 2, 2]], tag=1, mtop=True, mbot=False, masked_tiles=[])])
     # through Builder.toast_base
